@@ -4101,14 +4101,16 @@ class UDFFileEntry:
 
         return new_num_extents - old_num_extents
 
-    def remove_file_ident_desc_by_name(self, name, logical_block_size):
-        # type: (bytes, int) -> int
+    def remove_file_ident_desc_by_name(self, name, logical_block_size, encoding=None):
+        # type: (bytes, int, Optional[str]) -> int
         """
         Remove a UDF File Identifier Descriptor from this UDF File Entry.
 
         Parameters:
          name - The name of the UDF File Identifier Descriptor to remove.
          logical_block_size - The logical block size to use.
+         encoding - The encoding the name is stored in, if known (the same
+                    bytes are a different name in 8-bit and in 16-bit form).
         Returns:
          The number of extents removed due to removing this File Identifier Descriptor.
         """
@@ -4122,7 +4124,7 @@ class UDFFileEntry:
         # If flags bit 3 is set, the entries are sorted.
         desc_index = len(self.fi_descs)
         for index, fi_desc in enumerate(self.fi_descs):
-            if fi_desc.fi == name:
+            if fi_desc.fi == name and encoding in (None, fi_desc.encoding):
                 desc_index = index
                 break
         if desc_index == len(self.fi_descs) or self.fi_descs[desc_index].fi != name:
@@ -4306,8 +4308,11 @@ class UDFFileEntry:
         child = None
 
         for fi_desc in self.fi_descs:
-            if latin1_currpath and fi_desc.encoding == 'latin-1':
-                eq = fi_desc.fi == latin1_currpath
+            if fi_desc.encoding == 'latin-1':
+                # An 8-bit identifier can only be the name that was asked for
+                # if that name is representable in 8 bits; the same bytes read
+                # as 16-bit characters are a different name.
+                eq = bool(latin1_currpath) and fi_desc.fi == latin1_currpath
             else:
                 eq = fi_desc.fi == ucs2_currpath
 
